@@ -43,6 +43,7 @@ struct Step{
     int scale_mode = 0;           // 0 none, 1 vector overload, 2 raw overload
     std::vector<int> aw;
     uint64_t subseed = 0;
+    bool scatter = false; // cand_load: deliver a uniformly random subset of the candidates instead of a priority-biased one
     std::string name() const;
     std::string json() const;
 };
@@ -55,6 +56,7 @@ struct HOpts{
     int max_points = 600;
     int vmode = -1; // -1 random per history
     double construction_bias = 1.0; // multiplies the weight of beginConstruction
+    double scatter_candidates = 0.0; // probability that a cand_load step delivers a uniformly random subset of the candidates
 };
 struct HState{
     TasmanianSparseGrid g;
